@@ -214,8 +214,25 @@ func flight4Parse(
 	}
 	state.HandshakeRecvSequence = finishedPull.NextSequence
 
-	if _, ok = finishedPull.Messages[handshake.TypeFinished].(*handshake.MessageFinished); !ok {
+	finished, ok := finishedPull.Messages[handshake.TypeFinished].(*handshake.MessageFinished)
+	if !ok {
 		return 0, &alert.Alert{Level: alert.Fatal, Description: alert.InternalError}, nil
+	}
+
+	// The client's Finished binds its view of the whole handshake to ours: without
+	// this comparison a rewritten hello or key exchange message goes unnoticed.
+	plainText := cache.PullAndMerge(append(
+		handshakeRulesThroughClientKeyExchange(cfg.InitialEpoch),
+		dtlsflight.HandshakeCachePullRule{
+			Typ: handshake.TypeCertificateVerify, Epoch: cfg.InitialEpoch, IsClient: true, Optional: false,
+		},
+	)...)
+	expectedVerifyData, err := prf.VerifyDataClient(state.MasterSecret, plainText, state.CipherSuite.HashFunc())
+	if err != nil {
+		return 0, &alert.Alert{Level: alert.Fatal, Description: alert.InternalError}, err
+	}
+	if !bytes.Equal(expectedVerifyData, finished.VerifyData) {
+		return 0, &alert.Alert{Level: alert.Fatal, Description: alert.HandshakeFailure}, dtlserrors.ErrVerifyDataMismatch
 	}
 
 	if state.CipherSuite.AuthenticationType() == ciphersuite.AuthenticationTypeAnonymous {
